@@ -86,6 +86,10 @@ def replay_file(path):
                         fn(data.get("tier", "quick"), k, opts["chunks"]) for k in range(opts["chunks"]))
                 else:
                     gen = None
+                if gen is not None and data["kind"] == "bounded":
+                    gen = itertools.chain.from_iterable(
+                        fn(random.Random(data.get("seed", 0) * 1000 + k), data.get("tier", "quick"), k, opts["chunks"])
+                        for k in range(opts["chunks"]))
                 gen = gen if gen is not None else fn(data.get("tier", "quick")) if data["kind"] == "ground" else \
                     fn(random.Random(data.get("seed", 0)), data.get("tier", "quick"))
                 for item in gen:
